@@ -29,10 +29,15 @@ fn tabulate_one(job: &Job, maxstates: usize) -> Tabled {
   let evlist: Vec<Event> = keys.iter().flat_map(|k| vec![Pressed(*k), Released(*k)]).collect();
   let mk_hdr = |layout: Value, count: usize, truncated: bool, panic: String, panics: Vec<Value>| json!({
     "id": job.id, "layout": layout, "keys": jkeys(keys), "maxheld": job.maxheld,
-    "first": 0, "count": count, "truncated": truncated, "panic": panic, "panics": panics
+    "first": 0, "count": count, "truncated": truncated, "panic": panic, "panics": panics, "rejected": ""
   });
   let layout = match &job.layout {
-    None => return Tabled { hdr: mk_hdr(json!([]), 0, false, format!("load: {}", job.load_err), vec![]), lines: vec![], states: 0, transitions: 0, panics: 0, truncated: false },
+    None => {
+      // the real loader did not accept the source (an error message, or a panic of the loader: both recorded, neither is a panic of the mapper)
+      let mut h = mk_hdr(json!([]), 0, false, String::new(), vec![]);
+      h["rejected"] = json!(job.load_err);
+      return Tabled { hdr: h, lines: vec![], states: 0, transitions: 0, panics: 0, truncated: false }
+    },
     Some(l) => l
   };
   let mut mapper = match catch_unwind(AssertUnwindSafe(|| Mapper::for_layout(layout))) {
